@@ -1,6 +1,6 @@
 #!/bin/bash
 # adopt_seed.sh <ID> <name> : copy a confirmed seed from /tmp/seed-<ID> into /verif/seeded/<name>/
-ID=$1; NAME=$2; SD=/tmp/seed-$ID; D=/verif/seeded/$NAME
+ID=$1; NAME=$2; SD=${3:-/tmp/seed-$ID}; D=/verif/seeded/$NAME
 mkdir -p $D
 cp $SD/patch.diff $D/patch.diff
 DEMO=$(python3 -c "import json;print(json.load(open('$SD/meta.json'))['demo_file'])")
